@@ -76,6 +76,13 @@ func c07Probe(t tb, p pendingRun) {
 	}
 }
 
+// c07RawCase is a document written by hand together with the configuration it means.
+type c07RawCase struct {
+	C      cfg.Config `json:"config"`
+	Raw    string     `json:"raw"`
+	Labels []string   `json:"labels,omitempty"`
+}
+
 func TestC07(t *testing.T) {
 	col := ev.Get()
 	q := &runQueue{check: c07Probe}
@@ -118,8 +125,26 @@ func TestC07(t *testing.T) {
 		tagEdges := len(gc.G.SvcTags)+len(gc.G.SvcTagged)+len(gc.G.DecTag) > 0
 		evalCfg(t, cfgCase{C: gc.G.Config(), Style: gc.Style, Flags: gc.Flags, Labels: []string{gc.Tag}}, ev.Hash(gc), tagEdges, gc.G)
 	}
+	evalRaw := func(t tb, rc c07RawCase) bool {
+		a := ref.Analyse(rc.C)
+		o := runInproc(Spec{Files: []File{{Name: "anchors.yaml", Content: rc.Raw}}})
+		defer o.cleanup()
+		col.Case(ev.HashStr("anchors", rc.Raw), true)
+		col.Label("anchors-and-aliases")
+		if key, what := compareVerdict(a, sut.Flags{}, o); key != "" {
+			violation(t, "anchors:"+key, what+" :: "+oneLine(rc.Raw), rc)
+			return false
+		}
+		return true
+	}
 	// violations are stored as the configuration that failed (cfgCase); older hand-written cases are graph specs
 	stored := func(path string) {
+		if payloadHas(t, path, "raw") { // a document written by hand (anchors and aliases) with the configuration it means
+			var rc c07RawCase
+			loadRegress(t, path, &rc)
+			evalRaw(t, rc)
+			return
+		}
 		var cc cfgCase
 		loadRegress(t, path, &cc)
 		if len(cc.C.Services)+len(cc.C.Params)+len(cc.C.Decorators) > 0 {
@@ -168,16 +193,9 @@ func TestC07(t *testing.T) {
 			} else {
 				m.Params = []cfg.Param{{Name: "argA", Val: cfg.Str("@a")}, {Name: "argC", Val: cfg.Str("@c")}, {Name: "tg", Val: cfg.Str("!tagged plugin")}}
 			}
-			a := ref.Analyse(m)
-			o := runInproc(Spec{Files: []File{{Name: "anchors.yaml", Content: raw}}})
-			col.Case(ev.HashStr("anchors", raw), true)
-			col.Label("anchors-and-aliases")
-			if key, what := compareVerdict(a, sut.Flags{}, o); key != "" {
-				o.cleanup()
-				violation(t, "anchors:"+key, what+" :: "+oneLine(raw), cfgCase{C: m, Labels: []string{"written-with-anchors-and-aliases"}})
+			if !evalRaw(t, c07RawCase{C: m, Raw: raw, Labels: []string{"written-with-anchors-and-aliases"}}) {
 				return
 			}
-			o.cleanup()
 		}
 	}
 
